@@ -20,8 +20,40 @@ PROPS = {
         "assumptions": ["distinct step names", "acyclic DAG (C14 owns the cyclic case)"],
         "outside_claim": COMMON_OUTSIDE,
     },
+    "C04": {
+        "obligations": [
+            {"name": "C04.status", "pkg": SCHED, "replay": "R1",
+             "quick": {"entry": "VerifHarness_C04_status3", "flags": ["-unwind", "16"], "bounds": {"N": 3}},
+             "thorough": {"entry": "VerifHarness_C04_status4", "flags": ["-unwind", "16"], "bounds": {"N": 4}}},
+        ],
+        "assumptions": ["end-of-run pre-state constrained by invariant J (DESIGN C04), which is asserted on the threaded run harness"],
+        "outside_claim": COMMON_OUTSIDE + ["handler time-outs, mail side effects"],
+    },
+    "C10": {
+        "obligations": [
+            {"name": "C10.reset", "pkg": SCHED, "replay": "R1",
+             "quick": {"entry": "VerifHarness_C10_reset4", "flags": ["-unwind", "24"], "bounds": {"N": 4, "recorded_status": "all 6 values", "retry/done counts": "0..2"}},
+             "thorough": {"entry": "VerifHarness_C10_reset4", "flags": ["-unwind", "24"], "bounds": {"N": 4}}},
+        ],
+        "assumptions": ["distinct step names", "recorded steps listed in a topological order (as the builder produces them is NOT assumed by the code; the harness builds deps j<i)"],
+        "outside_claim": COMMON_OUTSIDE + ["parameter values of the recorded run (regexp submatch semantics; DESIGN section 7)"],
+    },
+    "C14": {
+        "obligations": [
+            {"name": "C14.iff", "pkg": SCHED, "replay": "R1",
+             "quick": {"entry": "VerifHarness_C14_iff4", "flags": ["-unwind", "40"], "bounds": {"N": 4, "edge_bits": 16, "self_loops": 1, "dangling": 0}},
+             "thorough": {"entry": "VerifHarness_C14_iff4", "flags": ["-unwind", "40"], "bounds": {"N": 4, "edge_bits": 16, "self_loops": 1}}},
+            {"name": "C14.iff-dangling", "pkg": SCHED, "replay": "R1",
+             "quick": {"entry": "VerifHarness_C14_iff3", "flags": ["-unwind", "40"], "bounds": {"N": 3, "edge_bits": 9, "self_loops": 1, "dangling": "none | one step, first or last in depends"}},
+             "thorough": {"entry": "VerifHarness_C14_iff4d", "flags": ["-unwind", "40"], "bounds": {"N": 4, "edge_bits": 12, "self_loops": 0, "dangling": "none | one step, first or last in depends"}}},
+        ],
+        "assumptions": ["distinct step names", "map iteration in insertion order (results do not depend on order for distinct names)"],
+        "outside_claim": COMMON_OUTSIDE + ["random graphs of up to 40 steps (sampling; not this technique)"],
+    },
 }
 
 
 def custom_replay(ob, entry, v, scratch, repo, env):
     return None, "no custom replay registered", None
+
+NOT_BUILT = {}
